@@ -44,11 +44,18 @@ def control_response(code, text, body_prefix=None):
     return ts.tlv(0x65, v)
 
 
+# (clock drift in us per reading, forwarder answers at once): with answers at once the next command is prepared within the
+# same millisecond, so the millisecond boundary falls between any two consecutive readings for some phase
+PHASE_GRID = [(50, True), (100, True), (150, True), (250, True), (150, False), (250, False), (300, False), (400, False), (500, False), (1000, False)]
+
+
 class RegScenario:
     """calls: list of (verb, prefix index); answers: list of answer kinds (per command in send order)"""
 
-    def __init__(self, loop, trace, fe_name, calls, answers):
+    def __init__(self, loop, trace, fe_name, calls, answers, local=True, drift_us=0, phase_us=0, auto=False):
         self.loop, self.trace = loop, trace
+        self.auto = auto        # the forwarder answers every command the moment it arrives
+        self.local, self.drift_us, self.phase_us = local, drift_us, phase_us
         self.fe_name = fe_name
         self.fe = FRONTENDS[fe_name]
         self.calls, self.answers = calls, answers
@@ -62,7 +69,9 @@ class RegScenario:
 
     def setup(self):
         self.env.__enter__()
-        self.face = HFace(self.trace)
+        self.loop.drift_us = self.drift_us
+        self.loop.read_offset_us = self.phase_us
+        self.face = HFace(self.trace, local=self.local)
         self.face.on_send = self._on_send
         self.app = self.fe.make_app(self.face)
         if self.fe_name == 'legacy':
@@ -80,6 +89,8 @@ class RegScenario:
     def _on_send(self, wire):
         self.cmds.append({'wire': wire, 'us': self.loop.us, 'answered': None, 'fired': None})
         self.trace.append(('cmd', len(self.cmds) - 1, self.loop.us))
+        if self.auto:
+            self.answer_oldest()
 
     async def _call(self, i):
         verb, pi = self.calls[i]
@@ -183,7 +194,7 @@ class RegScenario:
         return obs
 
 
-def check_command(fe_name, wire, verb_prefix_pool):
+def check_command(fe_name, wire, verb_prefix_pool, local=True):
     """returns (violations, (verb, prefix), timestamp)"""
     v = []
     try:
@@ -191,9 +202,10 @@ def check_command(fe_name, wire, verb_prefix_pool):
     except ts.Malformed as e:
         return [(f'C17|{fe_name}|command-malformed', f'{e}')], None, None
     name = r['name']
-    want_head = [ts.tlv(8, x) for x in (b'localhost', b'nfd', b'rib')]
+    want_head = [ts.tlv(8, x) for x in (b'localhost' if local else b'localhop', b'nfd', b'rib')]
     if name[:3] != want_head or len(name) < 5:
-        return [(f'C17|{fe_name}|command-name', f'command name head {[c.hex() for c in name[:4]]}')], None, None
+        return [(f"C17|{fe_name}|command-name|{'local' if local else 'non-local'}-face",
+                 f'command name starts {[bytes(ts.read_single(c).value) for c in name[:3]]} on a {"local" if local else "non-local"} face')], None, None
     verb = ts.read_single(name[3]).value.decode()
     prefix = RegScenario._cmd_prefix(r)
     # ControlParameters must contain exactly the Name
@@ -240,8 +252,10 @@ def check_command(fe_name, wire, verb_prefix_pool):
     return v, (verb, prefix), stamp
 
 
-def judge(fe_name, calls, answers, run):
+def judge(fe_name, calls, answers, run, local=True, drift=0):
     viol = []
+    # with a drifting wall clock the library's own deadline arithmetic shifts by a few readings: allow 20 ms of slack
+    LIFE = 1_000_000 - (20_000 if drift else 0)
     obs = run.obs
     cmds = obs['cmds']
     if obs['undone']:
@@ -251,7 +265,7 @@ def judge(fe_name, calls, answers, run):
     seen = []
     stamps = []
     for k, c in enumerate(cmds):
-        v, vp, stamp = check_command(fe_name, bytes.fromhex(c['wire']), None)
+        v, vp, stamp = check_command(fe_name, bytes.fromhex(c['wire']), None, local)
         viol.extend(v)
         seen.append(vp)
         stamps.append(stamp)
@@ -266,7 +280,7 @@ def judge(fe_name, calls, answers, run):
     for k in range(1, len(cmds)):
         prev = cmds[k - 1]
         fired_before = prev['fired'] is not None and prev['fired'] <= cmds[k]['us'] and prev['kind'] != 'silence'
-        if not fired_before and cmds[k]['us'] - prev['us'] < 1_000_000:
+        if not fired_before and cmds[k]['us'] - prev['us'] < LIFE:
             viol.append((f'C17|{fe_name}|two-commands-outstanding', f'command {k} sent at {cmds[k]["us"]}us while command {k-1} '
                                                                      f'(sent {prev["us"]}us) was unanswered'))
             break
@@ -275,7 +289,7 @@ def judge(fe_name, calls, answers, run):
     rx_us = {e[1]: e[2] for e in run.trace if e[0] == 'rx'}
     for k, c in enumerate(cmds):
         # the answer counts as late when the library only got to process it at / after the command's deadline
-        if f'ans{k}' in rx_us and rx_us[f'ans{k}'] - c['us'] >= 1_000_000:
+        if f'ans{k}' in rx_us and rx_us[f'ans{k}'] - c['us'] >= LIFE:
             c['late'] = True
         # same-instant rule: the deadline tick fired before the callbacks started by the answer had drained
         for ix, e in enumerate(run.trace):
@@ -283,7 +297,7 @@ def judge(fe_name, calls, answers, run):
                 for e2 in run.trace[ix + 1:]:
                     if e2[0] == 'quiescent':
                         break
-                    if e2[0] == 'fire' and e2[1] == 'tick' and e2[2] - c['us'] >= 1_000_000:
+                    if e2[0] == 'fire' and e2[1] == 'tick' and e2[2] - c['us'] >= LIFE:
                         c['late'] = True
         by_target.setdefault(seen[k], []).append(c)
     for i, (verb, pi) in enumerate(calls):
@@ -327,6 +341,18 @@ def sched_cases(tier):
         for mix in ([('register', 0), ('register', 1), ('register', 0)], [('register', 0), ('unregister', 1), ('register', 1)]):
             for a in itertools.product(ANS_TINY, repeat=3):
                 out.append((fe, mix, list(a)))
+    return out
+
+
+def extra_cases():
+    """(fe, calls, answers, local, drift_us): non-local face; wall clock that advances with every reading"""
+    out = []
+    for fe in ('v2', 'legacy'):
+        for mix in ([('register', 0)], [('unregister', 0)], [('register', 0), ('unregister', 1)]):
+            out.append((fe, mix, ['200'] * len(mix), False, 0))
+        for drift in (300, 500, 1000):
+            for mix in ([('register', 0), ('register', 1)], [('register', 0), ('unregister', 1)], [('register', 0), ('register', 1), ('unregister', 0)]):
+                out.append((fe, mix, ['200'] * len(mix), True, drift))
     return out
 
 
@@ -452,6 +478,8 @@ def plan(tier, seed):
     cases = sched_cases(tier)
     for k in range(0, len(cases), 6):
         units.append({'kind': 'sched', 'lo': k, 'hi': min(len(cases), k + 6), 'tier': tier, 'd': d})
+    units.append({'kind': 'extra', 'd': d, 'tier': tier})
+    units.append({'kind': 'phase'})
     for fe in ('v2', 'legacy'):
         units.append({'kind': 'routes', 'fe': fe})
     for lo in range(0, 65536, 4096):
@@ -490,6 +518,45 @@ def unit(arg):
                         acc.sample({'fe': fe, 'calls': calls, 'answers': answers, 'script': list(script), 'results': res})
                 explore(factory, script, arg['d'], on_run)
         acc.max_dev_completed = arg['d']
+    elif arg['kind'] == 'extra':
+        for fe, calls, answers, local, drift in extra_cases():
+            factory = lambda loop, trace: RegScenario(loop, trace, fe, calls, answers, local, drift)  # noqa
+            for script in scripts_for(len(calls), arg['tier']):
+                def on_run(run, script=script):
+                    acc.evaluations += 1
+                    acc.transitions += run.steps
+                    acc.nontrivial += 1
+                    res = run.obs['results']
+                    acc.observe([fe, calls, local, drift, list(script), run.choices, res])
+                    acc.outcome(f"{fe}|{'local' if local else 'nonlocal'}|drift={drift}|" + ','.join(f"{v[0]}:{v[1]}" for v in res.values())[:60])
+                    acc.state((fe, tuple(map(tuple, calls)), local, drift, tuple(script), tuple(run.choices[:6])))
+                    for sig, what in judge(fe, calls, answers, run, local, drift):
+                        acc.violation(sig, what + f' (face local={local}, clock drift {drift}us per reading)',
+                                      {'kind': 'extra', 'fe': fe, 'calls': [list(c) for c in calls], 'answers': answers, 'local': local,
+                                       'drift': drift, 'script': list(script), 'choices': list(run.choices)})
+                explore(factory, script, arg['d'], on_run)
+        acc.sample({'extra_cases': [[c[0], c[1], c[3], c[4]] for c in extra_cases()][:6]})
+        acc.max_dev_completed = arg['d']
+    elif arg['kind'] == 'phase':
+        # wall clock advancing with every reading, all phases relative to the millisecond boundary; answers come at once
+        for fe in ('v2', 'legacy'):
+            for mix in ([('register', 0), ('register', 1)], [('register', 0), ('unregister', 1)], [('unregister', 0), ('register', 1), ('register', 0)]):
+                for drift, auto in PHASE_GRID:
+                    for phase in range(0, 1000, 50):
+                        calls, answers = mix, ['200'] * len(mix)
+                        factory = lambda loop, trace: RegScenario(loop, trace, fe, calls, answers, True, drift, phase, auto)  # noqa
+                        script = tuple(f'r{i}' for i in range(len(mix))) + (() if auto else ('a',) * len(mix))
+                        run = execute(factory, script, ())
+                        acc.evaluations += 1
+                        acc.transitions += run.steps
+                        acc.nontrivial += 1
+                        acc.state((fe, tuple(map(tuple, mix)), drift, phase, auto))
+                        acc.outcome(f'phase|{fe}|drift={drift}|auto={auto}')
+                        acc.observe([fe, mix, drift, phase, auto, run.obs['results']])
+                        for sig, what in judge(fe, calls, answers, run, True, drift):
+                            acc.violation(sig + '|drifting-clock', what + f' (clock drift {drift}us per reading, phase {phase}us)',
+                                          {'kind': 'phase', 'fe': fe, 'calls': [list(c) for c in calls], 'drift': drift, 'phase': phase, 'auto': auto})
+        acc.sample({'phase_sweep': {'drift_us_per_reading,answer_at_once': [list(g) for g in PHASE_GRID], 'phase_us': 'every 50 in 0..950'}})
     elif arg['kind'] == 'routes':
         v, per = run_routes(arg['fe'])
         acc.evaluations += 1
@@ -519,6 +586,19 @@ def unit(arg):
 
 
 def replay(case):
+    if case['kind'] == 'phase':
+        calls = [tuple(c) for c in case['calls']]
+        answers = ['200'] * len(calls)
+        auto = case.get('auto', False)
+        factory = lambda loop, trace: RegScenario(loop, trace, case['fe'], calls, answers, True, case['drift'], case['phase'], auto)  # noqa
+        script = tuple(f'r{i}' for i in range(len(calls))) + (() if auto else ('a',) * len(calls))
+        run = execute(factory, script, ())
+        return [{'sig': s + '|drifting-clock', 'what': w} for s, w in judge(case['fe'], calls, answers, run, True, case['drift'])]
+    if case['kind'] == 'extra':
+        calls = [tuple(c) for c in case['calls']]
+        factory = lambda loop, trace: RegScenario(loop, trace, case['fe'], calls, case['answers'], case['local'], case['drift'])  # noqa
+        run = execute(factory, tuple(case['script']), tuple(case['choices']))
+        return [{'sig': s, 'what': w} for s, w in judge(case['fe'], calls, case['answers'], run, case['local'], case['drift'])]
     if case['kind'] == 'sched':
         calls = [tuple(c) for c in case['calls']]
         factory = lambda loop, trace: RegScenario(loop, trace, case['fe'], calls, case['answers'])  # noqa
